@@ -52,6 +52,24 @@ P = {
  'C12': dict(tech='Lean 4 corollaries of C01/C02 (associativity for 125 flat triples, self, subset, result-in-both, mixed chain) + correspondence over all 343 type triples',
              text='PROOF (partial): for flats associativity (both nestings denote exactly a∩b∩c, None absorbing), intersection(a,a)=a, a⊆b ⇒ intersection=a and result⊆both are theorems about the table-driven dispatcher; result⊆both and the chain (a∩b)∩P also for Valid polygons. Self/subset/associativity with polygon or polyhedron operands rest on unproved kernels and are decided per run on all 343 type triples against the exact triple intersection (vertex enumeration).',
              ref='DESIGN.md §5 C12'),
+ 'C09': dict(tech='Lean 4 theorems on the constructors (guarantees of a successful construction, translation equivariance) + Lean validity judge on every constructed object',
+             text='PROOF (partial): a successful ConvexPolygon has its vertices among the input, all coplanar, non-zero normal, centre = mean of the distinct input, and the constructor commutes with translations; a successful ConvexPolyhedron has every face oriented away from the centre, satisfies Euler, centre = vertex mean, centre inside. That the angular sort yields the counter-clockwise cycle (K6) is not proved: the stored cycle + normal of every polygon/polyhedron the implementation builds from permuted, duplicated, re-oriented input (and of -p, -(-p), fed-back sections) is judged by the Lean decision procedures polygonValidB / polyhedronValidB and compared with the model constructor and the exact hull.',
+             ref='DESIGN.md §5 C09'),
+ 'C13': dict(tech='Lean 4 theorems (48 signed permutations: dot/cross laws, membership and flat intersection equivariance, bijectivity) + metamorphic correspondence',
+             text='PROOF (partial): dot/cross under the 48 signed permutations (with the determinant factor), membership in every flat type and intersection of flats commute with permutation∘scaling∘translation for all k>0, well-formedness preserved, transformations bijective. Polygon/polyhedron equivariance and the scaling laws k, k^2, k^3 of the measures are decided per run metamorphically: every query on all 49 type pairs is re-evaluated under random symmetries/translations/scalings and compared with the transformed answer.',
+             ref='DESIGN.md §5 C13'),
+ 'C14': dict(tech='correspondence against closed forms (float, 1e-9) + Lean measure theorems; combinatorial/frame theorems when the Builders module is present',
+             text='PROOF (partial, weakest of the set): only the measure theory behind the closed forms is proved (closed surface ⇒ vector areas cancel, reference-independent volume); counts, frame selection and on-surface lemmas are being added. Decided per run: counts V/E/F and Euler, every vertex on the specified circle/cylinder/cone/sphere at equal steps, latitude rings of the Sphere, apex/top circle position, closed-form area and volume at relative 1e-9, arguments unmodified — over the 26 lattice axis directions, near-axis directions straddling SMALL_ANGLE, random directions, n 3..24, Sphere n1 3..12 × n2 2..5.',
+             ref='DESIGN.md §5 C14'),
+ 'C15': dict(tech='Lean 4 theorems on Except-valued constructors + extracted dispatch fall-through and move guards + correspondence over every invalid class',
+             text='PROOF (full for the modelled constructors and dispatch tables): Line/Segment/HalfLine/Plane(4 forms)/ConvexPolygon/ConvexPolyhedron constructors return only objects satisfying the invariant and reject the degenerate classes; unsupported operand pairs of intersection/distance/angle/parallel/orthogonal/volume and move(non-Vector) raise (tables extracted from the source, incl. raise-vs-return). Parallelogram/Parallelepiped/Pyramid/Circle guards, the collinear-points helper and within-tolerance instances (points 1e-12 apart) are decided per run.',
+             ref='DESIGN.md §5 C15'),
+ 'C19': dict(tech='Lean 4 invariant by induction over setter histories + decide over the extracted table of tolerance reads + correspondence on the property catalogue',
+             text='PROOF (partial): after ANY sequence of set_eps/set_sig_figures calls the two globals are consistent (sig = round(-log10 eps)), defaults and restore behave as stated, coordinate comparison accepts ≤eps/1000 and rejects >4·eps, and every tolerance read in the package is a live getter call at query time (extracted table: no value frozen at import, no literal tolerance). The consequences for the six composite types under eps/1000 and eps/100 perturbations (==, hash, containment, coincident intersection) are decided per run on the property\'s catalogue at eps 1e-12..1e-5 through either setter.',
+             ref='DESIGN.md §5 C19'),
+ 'C20': dict(tech='Lean 4 frame theorem by induction over arbitrary operation histories on a heap model + extracted write-effect sites + history correspondence with full snapshots',
+             text='PROOF (full on the heap model): an owning composite keeps its observation under any history of constructions, writes to and moves of other roots, deep copies and queries (separation invariants preserved by every disciplined operation); queries are the identity on the state; every mutation site outside the mutators acts on a deep copy or a fresh local and the four owning constructors deep-copy their arguments (extracted from the source, decided). The model\'s constructor table (deep copy vs alias) is tied to the code per run: random histories with full attribute snapshots before/after every step and final comparison of every object with the heap model.',
+             ref='DESIGN.md §5 C20'),
 }
 
 
